@@ -146,10 +146,23 @@ def run(ctx):
         if clause.startswith("MACHINERY"):
             raise core.Machinery(clause)
         ctx.violation(clause, {"label": meta["label"], "shape": meta["shape"]}, {"event": ev}, {"kind": "path-event", "event": ev, "label": meta["label"]})
+    # routes as the target receives them over a session: Forward Open, Unconnected Send with the configured route, module
+    # info of other slots in between, reconnects (TraceSession parses every route with EPath!ParsePadded)
+    from . import c15
+    from .. import session_engine as se
+    scs = [s for s in c15.session_family(rnd, 240 if thorough else 90) if s["driver"]["kind"] == "cip"]
+    results = se.run_all(ctx, scs, "c09s")
+    se.report(ctx, results, lambda r, clause, ev: {"label": "session-route", "shape": r["sc"]["family"]})
+    ctx.traces += len(results)
+    ctx.evaluations += sum(len(s["calls"]) for s in scs)
     ctx.assumptions += ["32-bit logical format (0b10) is accepted for every logical type; attribute id 0 is not generated "
                         "(request_path treats a falsy attribute as absent)"]
 
 
 def replay(path):
-    print(json.dumps(json.load(open(path)), indent=1)[:3000])
+    rec = json.load(open(path))
+    if rec.get("replay", {}).get("kind") == "session":
+        from . import logix_common as lc
+        return lc.replay(path)
+    print(json.dumps(rec, indent=1)[:3000])
     return 0
